@@ -91,6 +91,7 @@ package martian
 //@ func (*proxyConn).readRequest
 //@ property C15 C13
 //@ ghostset readOK() := (result1 == nil)
+//@ ghostset curBody() := ite(result1 == nil, result0.Body, old(curBody()))
 //@ requires p != nil && p.Proxy != nil && p.conn != nil && p.brw != nil && p.brw.Reader != nil && lockDepth() == 0
 //@ modifies *, readOK(), rdN(p.conn), rdAt, clk(), firstByteClk()
 //@ preserves proxyConn.* Proxy.* bufio.ReadWriter.*
@@ -229,7 +230,31 @@ package martian
 //@ ensures result1 == nil ==> len(result0) == n
 //@ ensures firstByteClk() == clk()
 
-//@ func (*Proxy).fixRequestScheme, upgradeType, shouldTerminateTLS, proxyutil.Warning
+// upgradeType (C01/C03: "Upgrade removed unless an upgrade is being requested"):
+// an upgrade is being requested when the token appears on any Connection line.
+// (hasToken is a function of the slice of field lines as it is at the call)
+//@ ghost fn hasToken([]string, string) bool
+//@ func httpguts.HeaderValuesContainsToken as (values []string, token string) (result bool)
+//@ trusted
+//@ pure
+//@ ensures result == hasToken(values, token)
+//@ func upgradeType
+//@ property C01 C03
+//@ pure
+//@ ensures ("Connection" in h) && !hasToken(h["Connection"], "Upgrade") ==> result == ""
+//@ ensures ("Connection" in h) && hasToken(h["Connection"], "Upgrade") ==> result == ite((canon("Upgrade") in h) && len(h[canon("Upgrade")]) > 0, h[canon("Upgrade")][0], "")
+
+// fixRequestScheme (C07): inside an intercepted (TLS) session a request is never
+// sent on in clear unless plain HTTP is explicitly allowed; a scheme the request
+// line carries is otherwise left alone.
+//@ func (*Proxy).fixRequestScheme
+//@ property C07
+//@ requires p != nil && req != nil && req.URL != nil && req.Header != nil
+//@ modifies req.URL.Scheme
+//@ ensures req.TLS != nil && !p.AllowHTTP ==> req.URL.Scheme != "http"
+//@ ensures old(req.URL.Scheme) != "" && !(old(req.URL.Scheme) == "http" && req.TLS != nil && !p.AllowHTTP) ==> req.URL.Scheme == old(req.URL.Scheme)
+
+//@ func shouldTerminateTLS, proxyutil.Warning
 //@ trusted
 //@ modifies *
 //@ preserves proxyConn.* Proxy.* bufio.ReadWriter.* http.Response.StatusCode http.Response.Request http.Request.Method http.Response.Header http.Request.Header http.Request.URL http.Request.Body http.Response.Body
@@ -477,13 +502,41 @@ package martian
 //@ ensures modReqFailed() ==> upstream() == old(upstream()) && nWrote() == old(nWrote()) + 1 && nMITM() == old(nMITM())
 //@ ensures upstream() <= old(upstream()) + 1
 
+// (local contracts used inside handle)
+// closing() as handle asks it, right after the request was read: the answer and
+// the upstream activity so far are remembered.
+//@ ghost ivar chkClosing() bool
+//@ ghost ivar upAtChk() int
+//@ contract closingChk(p *Proxy) (result bool)
+//@ modifies sawClosing(), chkClosing(), upAtChk()
+//@ ensures sawClosing() == result && chkClosing() == result && upAtChk() == upstream()
+// Close of a message body as handle calls it: counted per body (closing the
+// request body skips what the handler did not read of it - C01: the next request
+// on the connection starts where this one's body ends).
+//@ ghost ivar curBody() io.ReadCloser
+//@ ghost ivar bodyClosed(io.Closer) int
+//@ contract bodyClose(c io.Closer) (err error)
+//@ modifies *, bodyClosed(c)
+//@ preserves http.Response.StatusCode http.Response.Close http.Response.Request http.Request.Method http.Request.Close http.Response.Header http.Request.Header http.Request.URL http.Request.Body http.Response.Body proxyConn.* Proxy.* bufio.ReadWriter.* maps(http.Header) http.Request.ProtoMajor http.Request.ProtoMinor http.Response.ProtoMajor http.Response.ProtoMinor http.Response.ContentLength http.Response.TransferEncoding
+//@ ensures bodyClosed(c) == old(bodyClosed(c)) + 1
+
 // handle: every request that was read (and not dropped because of shutdown)
 // is reported complete exactly once; a request refused by the modifier stack
 // causes no upstream activity; a request read while shutting down is not forwarded.
 //@ func (*proxyConn).handle
-//@ property C13 C04 C11
+//@ property C13 C04 C11 C01
+//@ callas (*Proxy).closing closingChk
+//@ callas (io.ReadCloser).Close bodyClose
+//@ callas (io.Closer).Close bodyClose
 //@ requires p != nil && p.Proxy != nil && p.conn != nil && p.brw != nil && p.brw.Writer != nil && p.brw.Reader != nil && lockDepth() == 0 && p.rt != nil
-//@ modifies *, nRead(), nWrote(), wroteStatus(), sawClosing(), modReqFailed(), upstream(), readOK(), wrotePA(), wErr(), nMITM()
+//@ modifies *, nRead(), nWrote(), wroteStatus(), sawClosing(), modReqFailed(), upstream(), readOK(), wrotePA(), wErr(), nMITM(), curBody(), bodyClosed, chkClosing(), upAtChk()
+// C11: whatever kind of request was read (CONNECT included), shutdown is asked
+// about before anything is done for it, and a request read after shutdown has
+// begun causes no upstream activity.
+//@ ensures readOK() ==> upAtChk() == old(upstream())
+//@ ensures readOK() && chkClosing() ==> upstream() == old(upstream())
+// C01: on every path the body of the request that was read is closed.
+//@ ensures readOK() ==> bodyClosed(curBody()) >= old(bodyClosed(now(curBody()))) + 1
 //@ preserves Proxy.* proxyConn.Proxy proxyConn.brw bufio.ReadWriter.*
 //@ ensures p.conn != nil
 //@ ensures nRead() == old(nRead()) + 1
@@ -637,16 +690,24 @@ package martian
 // useAtReg records how many peer-dependent connection methods had been invoked)
 //@ ghost ivar useAtReg() int
 //@ contract regAdd(x *sync/atomic.Int32, delta int32) (result int32)
-//@ modifies a32(x), useAtReg()
+//@ modifies a32(x), useAtReg(), closeAtDec()
 //@ ensures a32(x) == old(a32(x)) + delta && result == a32(x)
-//@ ensures delta > 0 ==> useAtReg() == connUse()
-//@ ensures delta <= 0 ==> useAtReg() == old(useAtReg())
+//@ ensures delta > 0 ==> useAtReg() == connUse() && closeAtDec() == old(closeAtDec())
+//@ ensures delta <= 0 ==> useAtReg() == old(useAtReg()) && closeAtDec() == nCl()
+// (Close of the served connection inside handleLoop: counted, so that the order
+// "socket closed, then counted out" can be stated)
+//@ ghost ivar nCl() int
+//@ ghost ivar closeAtDec() int
+//@ contract servedClose(c net.Conn) (result error)
+//@ modifies nConnClose(c), nCl()
+//@ ensures nConnClose(c) == old(nConnClose(c)) + 1 && nCl() == old(nCl()) + 1
 
 //@ func (*Proxy).handleLoop
 //@ property C11 C13 C15
 //@ callas (*atomic.Int32).Add regAdd
+//@ callas (net.Conn).Close servedClose
 //@ requires p != nil && conn != nil && p.conns != nil && lockDepth() == 0 && p.rt != nil
-//@ modifies *, nConnClose(conn), a32(p.connsWg), nRead(), nWrote(), wroteStatus(), sawClosing(), modReqFailed(), upstream(), readOK(), wrotePA(), wErr(), nMITM(), useAtReg()
+//@ modifies *, nConnClose(conn), a32(p.connsWg), nRead(), nWrote(), wroteStatus(), sawClosing(), modReqFailed(), upstream(), readOK(), wrotePA(), wErr(), nMITM(), useAtReg(), nCl(), closeAtDec(), curBody(), bodyClosed, chkClosing(), upAtChk()
 //@ ensures nConnClose(conn) == old(nConnClose(conn)) + 1
 //@ ensures a32(p.connsWg) == old(a32(p.connsWg))
 //@ ensures !(conn in p.conns)
@@ -654,6 +715,9 @@ package martian
 // peer (RemoteAddr of a PROXY-protocol connection reads the header): an
 // accepted connection is never invisible to Shutdown and Close.
 //@ ensures useAtReg() == old(connUse())
+// C11: the open-connection counter - which Shutdown waits for - goes down only
+// after the socket has been closed.
+//@ ensures closeAtDec() == old(nCl()) + 1
 //@ loop 0:
 //@   invariant p != nil && p.rt != nil && pc != nil && pc.Proxy == p && pc.conn != nil && pc.brw != nil && pc.brw.Writer != nil && pc.brw.Reader != nil
 //@   invariant p.conns == old(p.conns) && p.conns != nil
